@@ -2487,6 +2487,23 @@ class Trimesh(Geometry3D):
                 )
             )
 
+        # values which only depend on `faces` can be kept in cache
+        topology = {
+            "face_adjacency",
+            "face_adjacency_edges",
+            "face_adjacency_unshared",
+            "edges",
+            "edges_face",
+            "edges_sorted",
+            "edges_unique",
+            "edges_unique_idx",
+            "edges_unique_inverse",
+            "edges_sparse",
+            "body_count",
+            "faces_unique_edges",
+            "euler_number",
+        }
+
         # if transformation flips winding of triangles
         if has_rotation and transformations.flips_winding(matrix):
             log.debug("transform flips winding")
@@ -2494,31 +2511,16 @@ class Trimesh(Geometry3D):
             # which will cause hashes to be more
             # expensive than necessary so wrap
             self.faces = np.ascontiguousarray(np.fliplr(self.faces))
+            # the values in `faces` changed so anything
+            # derived from them has to be regenerated
+            topology = set()
 
         # assign the new values
         self.vertices = new_vertices
 
-        # preserve normals and topology in cache
-        # while dumping everything else
-        self._cache.clear(
-            exclude={
-                "face_normals",  # transformed by us
-                "vertex_normals",  # also transformed by us
-                "face_adjacency",  # topological
-                "face_adjacency_edges",
-                "face_adjacency_unshared",
-                "edges",
-                "edges_face",
-                "edges_sorted",
-                "edges_unique",
-                "edges_unique_idx",
-                "edges_unique_inverse",
-                "edges_sparse",
-                "body_count",
-                "faces_unique_edges",
-                "euler_number",
-            }
-        )
+        # preserve normals which were transformed by us and
+        # topology in cache while dumping everything else
+        self._cache.clear(exclude={"face_normals", "vertex_normals"} | topology)
         # set the cache ID with the current hash value
         self._cache.id_set()
         return self
